@@ -54,6 +54,7 @@ type Ctx struct {
 	Cuts     []string
 	Analysed map[string]bool // functions analysed
 	Explain  string
+	SelfTest []SelfTestResult
 }
 
 func (c *Ctx) add(rule, construct string, st Status, pos string, msg string) {
@@ -264,6 +265,7 @@ func (c *Ctx) finish(verifDir string, t0 time.Time, seed int) int {
 			"cut_points":          nonNil(c.Cuts),
 			"notes":               nonNil(append(c.Notes, c.P.LoadNotes...)),
 			"broken":              nonNil(broken),
+			"rule_self_test":      selfTestSummary(c.SelfTest),
 			"checker_cmd":         "engine/junocheck -prop " + c.Prop + " -tier " + c.Tier,
 			"trusted_base":        []string{"go/types, go/ssa, go/callgraph/vta of golang.org/x/tools v0.50.0", "hand-confirmed rule tables in /verif/engine", "not followed: reflection, unsafe, cgo, assembly, goroutine interleavings"},
 			"exhaustive":          false,
@@ -288,6 +290,21 @@ func (c *Ctx) finish(verifDir string, t0 time.Time, seed int) int {
 		return 1
 	}
 	return 0
+}
+
+func selfTestSummary(rs []SelfTestResult) map[string]any {
+	n := map[string]int{}
+	for _, r := range rs {
+		n[r.Status]++
+	}
+	if rs == nil {
+		rs = []SelfTestResult{}
+	}
+	return map[string]any{
+		"what":    "thorough tier only: each stored seeded fault recorded as detected by this property's rules is overlaid (patched copies of the touched files, /repo untouched) and the check re-run; a miss means a rule lost its teeth on the current tree; stale = the patch no longer applies",
+		"caught":  n["caught"], "missed": n["missed"], "stale": n["stale"],
+		"results": rs,
+	}
 }
 
 func keys(m map[string]bool) []string {
